@@ -16,6 +16,7 @@
 
 #include <foonathan/memory/container.hpp>
 #include <foonathan/memory/std_allocator.hpp>
+#include <foonathan/memory/memory_resource_adapter.hpp>
 
 namespace foonathan
 {
@@ -287,6 +288,9 @@ namespace cs
     using AlP3 = fm::std_allocator<U, LeafP3>;
     template <class U>
     using AlP4 = fm::std_allocator<U, LeafP4>;
+    // std_allocator over a memory_resource_allocator whose resource is a memory_resource_adapter around a leaf
+    template <class U>
+    using AlPmr = fm::std_allocator<U, fm::memory_resource_allocator>;
 
     struct ContCtx
     {
